@@ -105,13 +105,13 @@ def activities(tr: Dict[str, Any]):
     return [e for e in raw.model(tr["traceEvents"]) if e.stream != -1]
 
 
-def kept_activities(case: Dict[str, Any]) -> Dict[int, list]:
+def kept_activities(case: Dict[str, Any], inc_last: bool = False) -> Dict[int, list]:
     """rank -> device activities that survive loading (the documented trimming of the trailing profiler step, C12; a no-op
     for traces with fewer than two steps such as G-int's)."""
     from hv.ref import load as refload
 
     models = {tr["distributedInfo"]["rank"]: raw.model(tr["traceEvents"]) for tr in case["files"].values()}
-    ld = refload.loaded(models, False)
+    ld = refload.loaded(models, inc_last)
     return {r: [e for e in ld.kept[r] if e.stream != -1] for r in models}
 
 
